@@ -24,6 +24,8 @@ func init() {
 			c02R6(c, "C02.R6")
 			c02R7(c, "C02.R7")
 			ruleFreelistNoAlias(c, "C02.R9") // mutable in-memory structures never alias the (read-only, shared) mapping
+			ruleFreeSetEntry(c, "C02.R10") // pages an open reader references never enter the allocator's free set
+			c06R1(c, "C02.R11") // writers put bytes only where an allocator-provided page id says
 			c06R2(c, "C02.R8") // a reader's pages stay unchanged only if writers put nothing but allocator-provided page ids into the dirty-page cache
 		},
 		Platform: func(c *Ctx) {
